@@ -89,6 +89,9 @@ fn parse_script(v: &Value) -> Result<Script, String> {
             Some("sleep") => {
                 s["ms"].as_u64().ok_or("sleep without ms")?;
             }
+            Some("stop") | Some("start") => {
+                s["node"].as_u64().ok_or("stop / start without node")?;
+            }
             Some("name") => {
                 s["name"].as_str().ok_or("name step without name")?;
             }
@@ -450,6 +453,17 @@ async fn run_with_mock(sc: &Script, mock: &MockCluster) -> Value {
                 tokio::time::sleep(Duration::from_millis(100)).await;
                 if let Err(e) = start_node_retrying(mock, node).await {
                     harness_err = format!("restart node {node}: {e}");
+                }
+            }
+            // the two halves of a restart as separate steps, so that a use call can fall in between
+            "stop" => {
+                let node = step["node"].as_u64().unwrap_or(0) as usize;
+                mock.stop_node(node).await;
+            }
+            "start" => {
+                let node = step["node"].as_u64().unwrap_or(0) as usize;
+                if let Err(e) = start_node_retrying(mock, node).await {
+                    harness_err = format!("start node {node}: {e}");
                 }
             }
             "add_node" => {
